@@ -9,7 +9,8 @@ EXTENDS Integers, FiniteSets, TLC
 
 CONSTANTS EnumHB,       \* TRUE: enumerate heartbeats from a constant universe (keeps TLC's action labels)
           Inf,          \* keys 0..Inf-1, Inf = unbounded end
-          Ids, Handlers, MaxTruth, MaxDeliver
+          Ids, Handlers, MaxTruth, MaxDeliver,
+          Restarts      \* TRUE: PD may restart (the cluster is loaded back from storage: no leaders, no terms)
 
 None == [id |-> 0]
 VARIABLES truth, used, bag,       \* ground truth: id -> [s,e,ver,conf,term]; ids ever used; heartbeats emitted
@@ -84,7 +85,7 @@ SaveKV(o, h)    == o = None \/ h.ver > o.ver \/ h.conf > o.conf
 \* a term change alone is invisible to PD; it shows through the leader peer. The binding gives every region
 \* three voters and makes the peer with index (term mod 3) the leader.
 Leader(h) == h.term % 3
-SaveCache(o, h) == SaveKV(o, h) \/ Leader(h) # Leader(o)
+SaveCache(o, h) == SaveKV(o, h) \/ o.term = 0 \/ Leader(h) # Leader(o)       \* term 0: loaded from storage, no leader known
 
 PreCheck(p, h) ==
   /\ hpc[p] = "idle" /\ h \in bag /\ nD < MaxDeliver /\ nD' = nD + 1
@@ -119,6 +120,15 @@ StoreOps(p) ==
   /\ hpc' = [hpc EXCEPT ![p] = "idle"]
   /\ UNCHANGED <<truth, used, bag, cache, hh, horg, hdel, best, conc, last, nT, nD, ok>>
 
+(* PD restarts (or another member takes over) while heartbeats are handled one at a time: what is served is what was  *)
+(* persisted, without leaders and terms, until the regions report again                                                *)
+Restart ==
+  /\ Restarts /\ ~conc /\ nD >= 3 /\ \A p \in Handlers : hpc[p] = "idle"
+  /\ cache # <<>> /\ \A i \in DOMAIN cache : cache[i].term # 0
+  /\ cache' = [i \in DOMAIN store |-> [id |-> i, s |-> store[i].s, e |-> store[i].e, ver |-> store[i].ver, conf |-> store[i].conf, term |-> 0]]
+  /\ last' = <<"restart", None>>
+  /\ UNCHANGED <<truth, used, bag, store, hpc, hh, horg, hdel, best, conc, nT, nD, ok>>
+
 MaxE == MaxTruth + 1
 HBs == [id : Ids, s : 0..(Inf - 1), e : 1..Inf, ver : 1..(MaxE + 1), conf : 1..MaxE, term : 1..MaxE]
 Next == \/ \E id \in Ids, k \in 1..(Inf - 1), new \in Ids : Split(id, k, new)
@@ -129,6 +139,7 @@ Next == \/ \E id \in Ids, k \in 1..(Inf - 1), new \in Ids : Split(id, k, new)
         \/ \E p \in Handlers, h \in (IF EnumHB THEN HBs ELSE bag) : PreCheck(p, h)
         \/ \E p \in Handlers : Commit(p)
         \/ \E p \in Handlers : StoreOps(p)
+        \/ Restart
 Spec == Init /\ [][Next]_vars
 (* the same system without splits and merges: simulation then concentrates on epochs and terms of one region *)
 NextTerms == \/ \E id \in Ids : ConfChange(id)
